@@ -67,6 +67,7 @@ EXPECT = {
     'ONE1': [('FixtureLint::InZone', 'dlon')],
     'AUX1': [('FixtureLint::Rect', 'chi1 as phi')],
     'CP2': [('FixtureLint::AltSum', '_a/_alt_a')],
+    'SWP1': [('FixtureLint::Order', 'sphi1,sphi2')],
     'CP1': [('FixtureLint::Pad', 'easting/northing')],
     'X7r': [('FixtureShared::HalfFilled', 'alpha_')],
     'K7': [('FixtureRaster::probe', 'B1 filepos column')],
@@ -162,6 +163,9 @@ def run_controls(rules):
         elif r == 'CP2':
             from .rules import lint
             res = lint.rule_CP2(fx, None)[0]
+        elif r == 'SWP1':
+            from .rules import lint
+            res = lint.rule_SWP1(fx, None)[0]
         elif r == 'CP1':
             from .rules import lint
             res = lint.rule_CP1(fx, None)[0]
